@@ -320,6 +320,30 @@ theorem pending_recorded_at_epoch {env : Env} {cs cs' : ClientState} {st st' : S
   · intro h0; rw [hpe]; simpa [h0] using hp
   · intro h0; rw [hpe]; simp only [h0, ↓reduceIte, Option.some.injEq] at hp; exact hp.symm
 
+/-- **offset 0** (a single-validator set, ⌊len/2⌋ = 0): the epoch header is itself the switch point — both
+branches of `update` fire for the same header, and the new validator list is the one this very header carries. -/
+theorem switch_at_epoch_header {env : Env} {cs cs' : ClientState} {st st' : Store} {bt : Nat} {h : Header}
+    (hacc : updateClient Fix.fixed env cs st bt h = .ok (cs', st'))
+    (h0 : h.number % cs.epoch = 0) (hN : cs.validators.length / 2 = 0) :
+    parseValidators h.extra = some cs'.validators ∧ st'.pending = cs'.validators := by
+  obtain ⟨signer, pending, _, hp, hcs', _, hpe, _⟩ := step_effect hacc
+  unfold pendingAfter at hp
+  simp only [h0, ↓reduceIte] at hp
+  have hv : cs'.validators = pending := by rw [hcs']; simp [h0, hN]
+  rw [hv, hpe]; exact ⟨hp, rfl⟩
+
+/-- the validator list after an accepted header, in closed form: the pending list (this header's own list when
+it is an epoch header) exactly at offset ⌊len/2⌋, unchanged otherwise — the rule the harness oracle re-evaluates
+on its own bookkeeping. -/
+theorem valset_after {env : Env} {cs cs' : ClientState} {st st' : Store} {bt : Nat} {h : Header}
+    (hacc : updateClient Fix.fixed env cs st bt h = .ok (cs', st')) :
+    (h.number % cs.epoch = cs.validators.length / 2 → pendingAfter st cs h = some cs'.validators)
+    ∧ (h.number % cs.epoch ≠ cs.validators.length / 2 → cs'.validators = cs.validators) := by
+  obtain ⟨signer, pending, _, hp, hcs', _, _, _⟩ := step_effect hacc
+  constructor
+  · intro hsw; rw [hcs']; simp only [hsw, ↓reduceIte]; exact hp
+  · intro hsw; rw [hcs']; simp only [hsw, ↓reduceIte]
+
 /-! ## order independence (cited by the determinism property C14) -/
 
 theorem mem_insertSorted {a x : Addr} {l : List Addr} : x ∈ insertSorted a l ↔ x = a ∨ x ∈ l := by
@@ -938,6 +962,23 @@ theorem growth_thin_window :
     have : (match run Fix.fixed env growClient growBlocks with
             | .ok s => (valSet s.1.validators).length | _ => 0) = 9 := by decide +kernel
     rw [hr] at this; exact this
+
+/-! ### offset 0 — a single validator hands over to a different single validator at the epoch header itself -/
+
+def oneClient : ClientState := client 4 1000 [1] (hdr 4 1 2 100 [1])
+
+def oneBlocks : List (Nat × Header) :=
+  [(0, hdr 5 1 2 103), (0, hdr 6 1 2 106), (0, hdr 7 1 2 109), (0, hdr 8 1 2 112 [2])]
+
+/-- epoch 4, client at height 4 with the set {1}; epoch header 8 (sealed by 1) carries [2]: the set is {2} from
+header 8 on — header 9 sealed by the retired validator 1 is refused, sealed by 2 it is accepted. -/
+theorem handover_at_offset_0 :
+    (match run Fix.fixed env oneClient oneBlocks with
+      | .ok s => some (s.1.validators, s.2.pending)
+      | _ => none) = some ([addrBytes 2], [addrBytes 2])
+    ∧ (run Fix.fixed env oneClient (oneBlocks ++ [(0, hdr 9 1 2 115)])).isOk = false
+    ∧ (run Fix.fixed env oneClient (oneBlocks ++ [(0, hdr 9 2 2 115)])).isOk = true := by
+  refine ⟨by decide +kernel, by decide +kernel, by decide +kernel⟩
 
 end Witness
 
